@@ -410,6 +410,16 @@ pub fn many_hunks(_seed: u64) -> Vec<LargeInput> {
 
 /// inputs whose changed middle has more than 2^20 cells for a quadratic table: only ever run
 /// with LCS by the checks that ask for them (one LCS diff of this size takes about a second)
+/// the `lcs_big` inputs for a tier: the 70000-item one makes Compact's clean-up of 70 000 unit
+/// deletes quadratic (about 10 s per captured diff) and is left to the thorough tier where a
+/// check goes through Compact
+pub fn lcs_big_for(tier: Tier, through_compact: bool) -> Vec<LargeInput> {
+    lcs_big()
+        .into_iter()
+        .filter(|i| tier == Tier::Thorough || !through_compact || i.old.len().max(i.new.len()) < 70_000)
+        .collect()
+}
+
 pub fn lcs_big() -> Vec<LargeInput> {
     vec![
         LargeInput {
